@@ -198,7 +198,16 @@ def materialize(case, root):
 TS = re.compile(rb"^\d{4}/\d\d/\d\d \d\d:\d\d:\d\d ")
 
 def classify_error(msg):
-    """implementation error text -> the model's error classes"""
+    """implementation error text -> the model's error classes (a program-name prefix such as "hranoprovod-cli: " in front of the message is layout, not content)"""
+    c = classify_error_1(msg)
+    if c.startswith("other:"):
+        m2 = re.sub(r"^[A-Za-z0-9_.-]+: ", "", msg.strip(), count=1)
+        if m2 != msg.strip():
+            c2 = classify_error_1(m2)
+            if not c2.startswith("other:"): return c2
+    return c
+
+def classify_error_1(msg):
     m = msg.strip()
     if m.startswith("bad syntax on line") or m.startswith("error converting"): return "parse:" + m.encode("utf-8", "surrogateescape").hex()
     if m == "maximum resolution depth reached": return "maxdepth"
